@@ -83,7 +83,7 @@ func explain(s *Sim, q *SeqRunner) (vs []Violation, explained, straddling, lostC
 		}
 		wantEff := ""
 		if effTx != nil {
-			wantEff = blur(core.NormChanges(OwnEffect(effTx.Diff)))
+			wantEff = blur(NormEffect(OwnEffect(effTx.Diff)))
 		}
 		failed := !r.Done || r.Err != nil
 		if failed && effTx == nil {
